@@ -6,18 +6,21 @@ from . import lib_c14 as L
 from .lib import PLUMBING, closure_of_operand, result_split
 
 LEVEL = "other"
-TECHNIQUE = ("static analysis: backward slices of the two fields of the ResultsPage built by ResultsPage::new (token from the LAST item through Option::map / match, items moved unmodified, "
-             "token errors propagated), plus the C14 codec/bound/limit decisions re-evaluated")
-LEVEL_TEXT = ("Only the framework's structural necessary conditions of a complete scan are decided, on the MIR of the current tree: in ResultsPage::new the next_page token is present "
-              "exactly when <[T]>::last(items) is Some (i.e. the page is non-empty), it is serialize_page_token(get_page_selector(that last item, scan_params)) and a token error is "
-              "propagated rather than turned into `no more pages`; `items` reaches the result unmodified (no mutable borrow, no transformation); a token issued is accepted back and yields "
+TECHNIQUE = ("static analysis: variant-aware value origins of the two fields of every ResultsPage built by ResultsPage::new (token from the LAST item through Option::map+transpose or "
+             "match / if let / let-else, items moved unmodified), forward flow of the token error to the return, plus the C14 codec/bound/limit decisions re-evaluated")
+LEVEL_TEXT = ("Only the framework's structural necessary conditions of a complete scan are decided, on the MIR of the current tree (extracted helpers inlined): every Ok payload of "
+              "ResultsPage::new is a ResultsPage aggregate whose next_page is present exactly when <[T]>::last(items) is Some (i.e. the page is non-empty) — either "
+              "transpose(map(last(items), token closure)) or Some(token) built only on the Some edge / None only on the None edge of the test of last(items) — the token is the Ok payload of "
+              "serialize_page_token(get_page_selector(that last item, scan_params)) and the token error flows unchanged to the return on every path of its error edge (`?` or match + return) "
+              "rather than being turned into `no more pages`; `items` reaches the result unmodified (no mutable borrow, no transformation); a token issued is accepted back and yields "
               "the same selector (C14.R1/R2 re-evaluated) and the effective limit is min(client limit, max) / default (C14.R5 re-evaluated). "
               "NOT decided: termination and exactly-once coverage of a scan — they depend on the consumer's handler (its query and its selector) and on run-time histories.")
-LEVEL_NOTE = ("Trusts rustc MIR, the extractor, engine slices/dominators, absint; <[T]>::last returns the final element and is None iff the slice is empty; Option::map / transpose / `?` "
-              "preserve Some-ness. The consumer's get_page_selector and its query are outside the analysed crate.")
-EXPLANATION = ("CHAIN slices from ResultsPage{next_page, items} back to <[T]>::last(items) and serialize_page_token with short allow-lists; DOM for the inline (match) form; "
-               "absence of &mut borrows on the items chain; re-evaluation of C14.R1, C14.R2 (SIBLINGS-AGREE) and C14.R5 (DECIDE) under C15 rule ids.")
-TRUSTED = ["rustc nightly MIR", "mirfacts extractor", "rules/engine.py", "rules/absint.py", "core::slice::last, Option::map, Option::transpose semantics", "C14's trusted base for R2a-c"]
+LEVEL_NOTE = ("Trusts rustc MIR, the extractor, engine slices/dominators/helper inlining, rules/lib_c14.py, absint; <[T]>::last returns the final element and is None iff the slice is empty; "
+              "Option::map / transpose / `?` preserve Some-ness. The consumer's get_page_selector and its query are outside the analysed crate.")
+EXPLANATION = ("ORIGIN traces (lib_c14.trace, projection- and variant-sensitive) from ResultsPage{next_page, items} back to <[T]>::last(items) and serialize_page_token; FEASIBLE-PATH dominance for "
+               "the inline (match / if let / let-else) form; absence of &mut borrows on the items chain; forward ERROR FLOW of the token Result; re-evaluation of C14.R1, C14.R2 "
+               "(SIBLINGS-AGREE) and C14.R5 (DECIDE) under C15 rule ids.")
+TRUSTED = ["rustc nightly MIR", "mirfacts extractor", "rules/engine.py", "rules/lib_c14.py", "rules/absint.py", "core::slice::last, Option::map, Option::transpose semantics", "C14's trusted base for R2a-c"]
 
 NEW = r"^pagination::ResultsPage::<ItemType>::new$"
 PAGE_ADT = "pagination::ResultsPage"
